@@ -120,6 +120,7 @@ Fixpoint lrender (t : tok) : list litem :=
   | ThematicBreak _ => [LCmd ([10] ++ $"\hrulefill" ++ [10])]
   | HtmlBlock _ => []       (* not in render_map *)
   | Document ch => inner ch  (* the body only; render_document wraps it, see render_latex *)
+  | BlankLine | LinkRefDef _ | LinkRefDefBlock _ => []   (* not in LaTeXRenderer's render_map *)
   end.
 
 (* packages: self.packages[...] = ... assignments in rendering order *)
